@@ -182,6 +182,22 @@ def check(ctx):
             bad.append((f, n))
     ctx.ob('C09.R3.root-writers', '_root_moves', not bad,
            'the root list is written only by the constructor', site=bad[0][0].loc(bad[0][1]) if bad else ctor.loc())
+    # the root search call runs at ply 0: the base frame is given ply -1 before it, the call receives the next frame, and a node's
+    # ply is its parent's plus one (so that `ply == 0` identifies the root in search())
+    from rules.norm import Norm as _Nr
+    nit = _Nr(it, inline=False, keep=('info',))
+    rootcalls = [n for n, cfid, nm in it.calls() if nm == 'engine::Search::search']
+    base_set = [n for n in it.all_nodes() if n['k'] == 'BinaryOperator' and n.get('op') == '=' and
+                nit.s(kids(n)[0]) in ('info._ply', '(*(info))._ply', 'info->_ply') and _Nr(it).cval(kids(n)[1]) == -1]
+    frame_ok = bool(rootcalls) and all(nit.s(kids(c_)[-1]) == '(info+1)' for c_ in rootcalls)
+    base_ok = len(base_set) >= 1 and all(any(it.cfg.node_dominates(b_, c_) for b_ in base_set) for c_ in rootcalls)
+    ns = _Nr(s, inline=False, keep=('info',))
+    ply_def = [n for n in s.all_nodes() if n['k'] == 'BinaryOperator' and n.get('op') == '=' and ns.s(kids(n)[0]) in ('info._ply',)]
+    rec_ok = len(ply_def) == 1 and ns.s(kids(ply_def[0])[1]) in ('((info-1)._ply+1)', '(1+(info-1)._ply)')
+    ctx.ob('C09.R3.root-ply', 'iter_search/search', frame_ok and base_ok and rec_ok,
+           'the base frame gets ply -1 before the root search call, which receives the next frame; a node\'s ply is its parent\'s plus '
+           'one: the root search runs at ply 0 (base set: %d, frame: %s, recurrence: %s)'
+           % (len(base_set), [nit.s(kids(c_)[-1]) for c_ in rootcalls], [ns.s(kids(x)[1]) for x in ply_def]), site=it.loc())
     # root node iterates the root list: every definition of the node's move range, by the case it is made in
     from rules.common import all_guards
 
